@@ -24,6 +24,10 @@
 //	       command in another process whose environment has changed: the restarted run must see the first run's values
 //	retrycmd the real `start -p` command on a DAG whose second step fails once, then the real `retry --req <id>`
 //	       command in another process: the retried steps must see the first run's values
+//	subwf  the real `start -p` command on a DAG with a `run:` sub-workflow step whose child declares default parameters
+//	       at the same positions / names: the step after the call and the exit handler must still see the parent's values
+//	       (the sub-workflow executor starts os.Executable() - this driver - with `start --params=... child.yaml`,
+//	       which it hands to the real start command)
 //	cli    the real `start -p` command (cmd.Execute) with the parameter string wrapped in quotes as the API client
 //	       does (client.go: fmt.Sprintf(`"%s"`, ...)); start.go strips exactly that pair
 package main
@@ -225,6 +229,7 @@ type Job struct {
 	Extra  []string `json:"extra,omitempty"` // further variable names the envdump children report
 	Sleep  bool     `json:"sleep,omitempty"` // the DAG ends with a step that sleeps (so that it can be restarted)
 	Fail1  bool     `json:"fail1,omitempty"` // the DAG: s0 reports, s1 fails on its first call and reports afterwards, s2 reports
+	SubWf  bool     `json:"subwf,omitempty"` // the DAG: s0 reports, s1 runs a child DAG with default params of its own, s2/s3 and the exit handler report
 	ReqID  string   `json:"req,omitempty"`
 	Collide   string `json:"collide,omitempty"`
 	ProdFiles int    `json:"prod_files,omitempty"`
@@ -275,7 +280,7 @@ func schedule(d *dag.DAG, g *scheduler.ExecutionGraph, dir string) (*scheduler.S
 	return sc, sc.Status(g).String()
 }
 
-var sleepStep, failFirst bool
+var sleepStep, failFirst, subWf bool
 
 func envDag(dir string, names []string, npos int, extra ...string) string {
 	me := self()
@@ -298,6 +303,27 @@ func envDag(dir string, names []string, npos int, extra ...string) string {
 		"handlerOn:\n  exit:\n    command: " + me + " envdump " + filepath.Join(dir, "p-handler.json") + " " + strings.Join(all, " ") + "\n"
 	if sleepStep {
 		y = strings.Replace(y, "handlerOn:", "  - name: s3\n    command: sleep 1\n    depends:\n      - s2\nhandlerOn:", 1)
+	}
+	if subWf {
+		// the child declares defaults at the same positions and under the same names
+		var defs []string
+		for i := 1; i <= npos; i++ {
+			defs = append(defs, fmt.Sprintf("child-%d", i))
+		}
+		for _, n := range names {
+			defs = append(defs, n+"=child-"+n)
+		}
+		child := "name: c11child\nparams: " + strings.Join(defs, " ") + "\nsteps:\n  - name: c\n    command: \"true\"\n"
+		cf := filepath.Join(dir, "c11child.yaml")
+		if err := os.WriteFile(cf, []byte(child), 0644); err != nil {
+			panic(err)
+		}
+		y = "name: c11env\nsteps:\n" +
+			"  - name: s0\n    command: " + me + " envdump " + filepath.Join(dir, "p-first.json") + " " + strings.Join(all, " ") + "\n" +
+			"  - name: s1\n    run: " + cf + "\n    params: \"job-1\"\n    depends:\n      - s0\n" +
+			"  - name: s2\n    command: " + me + " envdump " + filepath.Join(dir, "p-env.json") + " " + strings.Join(all, " ") + "\n    depends:\n      - s1\n" +
+			"  - name: s3\n    command: " + me + " argdump " + filepath.Join(dir, "p-arg.json") + " " + strings.Join(dollars, " ") + "\n    depends:\n      - s2\n" +
+			"handlerOn:\n  exit:\n    command: " + me + " envdump " + filepath.Join(dir, "p-handler.json") + " " + strings.Join(all, " ") + "\n"
 	}
 	if failFirst {
 		y = "name: c11env\nsteps:\n" +
@@ -384,7 +410,7 @@ func workerMain() {
 		os.Exit(0)
 	case "cli":
 		// the real command line entry point: blackdagger start -p "<params>" file
-		sleepStep, failFirst = j.Sleep, j.Fail1
+		sleepStep, failFirst, subWf = j.Sleep, j.Fail1, j.SubWf
 		f := envDag(j.Dir, j.Names, j.NPos, j.Extra...)
 		os.Setenv("HOME", j.Dir)
 		os.Setenv("BLACKDAGGER_HOME", filepath.Join(j.Dir, ".blackdagger"))
@@ -679,6 +705,24 @@ func execCase(c *Case, base string) {
 			for k, v := range r2.Probes {
 				c.Probes["re-"+k] = v
 			}
+		}
+	case "subwf":
+		c.S = render(c.Items)
+		dir, err := os.MkdirTemp(base, "w")
+		if err != nil {
+			panic(err)
+		}
+		defer os.RemoveAll(dir)
+		names, npos := namesOf(c.Items)
+		_, hang := runJob(Job{Mode: "cli", Dir: dir, Params: `"` + c.S + `"`, Names: names, NPos: npos, SubWf: true}, 40*time.Second)
+		c.Hang = hang
+		c.Probes = map[string]*Probe{}
+		for _, n := range []string{"first", "env", "arg", "handler"} {
+			c.Probes[n] = readProbe(filepath.Join(dir, "p-"+n+".json"))
+		}
+		// did the child run? (its history is written under the same HOME)
+		if fs, _ := filepath.Glob(filepath.Join(dir, ".blackdagger", "data", "c11child*", "*.dat")); len(fs) > 0 {
+			c.Status = "child-ran"
 		}
 	case "retrycmd":
 		c.S = render(c.Items)
@@ -979,6 +1023,13 @@ func main() {
 		case "worker":
 			workerMain()
 			return
+		case "start":
+			// a `run:` step of a DAG under test: hand over to the real start command (HOME is inherited)
+			log.SetOutput(io.Discard)
+			if bdcmd.Execute() != nil {
+				os.Exit(1)
+			}
+			return
 		case "envdump", "argdump", "catfile", "failonce", "catattempt":
 			childMain(os.Args[1:])
 			return
@@ -1126,6 +1177,23 @@ func main() {
 			if noBacktick(its) {
 				add(&Case{Stream: "subst", Gen: "random", Items: its})
 			}
+		}
+		// a sub-workflow step between the consumers
+		subFixed := [][]Item{
+			{{Kind: "w", Value: "parent-first"}, {Kind: "nw", Name: "SUBN", Value: "parent-value"}},
+			{{Kind: "q", Value: "a b"}, {Kind: "nq", Name: "N", Value: "p q"}, {Kind: "w", Value: "c"}},
+			{{Kind: "nw", Name: "K", Value: "a=b"}, {Kind: "q", Value: ""}},
+		}
+		for _, it := range subFixed {
+			add(&Case{Stream: "subwf", Gen: "fixed", Items: it})
+		}
+		for i := pick(3, 60); i > 0; {
+			it := genItems(rng, true, 3)
+			if !noSubst(it) || strings.ContainsAny(render(it), "\n\r") {
+				continue
+			}
+			add(&Case{Stream: "subwf", Gen: "random", Items: it})
+			i--
 		}
 		// retry of a failed run through the real command
 		retryFixed := [][]Item{
